@@ -1,11 +1,14 @@
 META = {
     "assumptions": ["allocation failure out of scope (--no-malloc-may-fail)",
                     "fix_problem is stubbed to record and answer no (e2fsck -n); the protocol 'no => exit status != 0 unless PR_NO_OK' is decided in C01/fixproblem"],
-    "outside": ["completeness of a whole e2fsck -fn run (block ownership, link counts, reachability, bitmap and count agreement): "
-                "only self-contained detectors are decided",
+    "outside": ["completeness of a whole e2fsck -fn run: the pass 3 / 4 / 5 kernels are decided on what passes 1-2 hand them (block_found_map, inode_used/dir maps, "
+                "icounts, the dir_info table); that pass 1 / pass 2 build those tables right from the image (block ownership, duplicate blocks, reference counting) is outside",
+                "pass 3: check_root, lost+found creation, e2fsck_reconnect_file / fix_dotdot (cut), directories on a cycle of parents (GENUINE FINDING: reported by nothing)",
+                "pass 4: EA-inode reference consolidation (check_ea_inode), inodes larger than 128 bytes (in-inode EA magic probe), quota adjustments",
+                "pass 5: bigalloc (cluster ratio > 1), more than 3 groups, the loader's reconstruction of BLOCK_UNINIT bitmaps",
                 "htree: three-level trees (update_parents over interior nodes), siphash (hash stored in the dirent), casefolded / encrypted "
                 "directories, checksummed nodes (dx tail); the hash function itself (C15)",
-                "pass 5: the bitmap checksum primitive itself (C14) and the bitmap / count comparison",
+                "pass 5: the bitmap checksum primitive itself (C14)",
                 "e2fsck_process_bad_inode: pass 1's device-inode and symlink sub-checks (symbolic verdicts here), and pass 1's decision to mark an inode bad",
                 ],
 }
@@ -148,6 +151,14 @@ HARNESSES.append(
          backends=["default", "kissat"],
          bound="table of 6 directories (root, lost+found, 4 more): parent (none or any table directory), '..' (any 32-bit value) and inode_dir_map "
                "membership symbolic for each; every parent function on 6 nodes, loops included; e2fsck -n"))
+HARNESSES.append(
+    dict(name="p1blocks", src="p1blocks.c",
+         funcs=["process_block", "mark_block_used"],
+         configs=[{"NCALL": 3}],
+         unwind=4, unwindset=["main.%d:18" % i for i in range(12)] + ["fix_problem.0:4", "vf_bit.0:17", "ext2fs_mark_generic_bmap.0:17"],
+         backends=["default", "kissat"],
+         bound="16-block filesystem, arbitrary block_found_map / block_dup_map, one regular indirect-mapped file, 3 calls with symbolic 64-bit block numbers at "
+               "logical blocks 0..2, symbolic num_blocks / max_blocks; e2fsck -n"))
 MANIFEST = {
     "text": "Kernel-level slice (partial). Detector completeness against an independent format predicate, bounded-exhaustive: every extent header "
             "violating (magic, entries <= max, max entries fit the node) is rejected by ext2fs_extent_header_verify for every node size; every "
@@ -158,8 +169,18 @@ MANIFEST = {
             "out of range / unreferenced / doubly referenced / at the wrong depth (htreerange), and composed from the bytes of a leaf (htreerange_leaf). "
             "Both pass-5 bitmap checksum detectors report exactly the initialised bitmaps whose checksum fails, over the right bit range (bmcsum). "
             "e2fsck_process_bad_inode raises every field problem exactly when the on-disk field violates its format rule, on a fully symbolic inode "
-            "(badinode). Completeness of a whole e2fsck -fn run is outside.",
+            "(badinode). Whole-image invariants, per deciding kernel: pass 5 check_block_bitmaps / check_inode_bitmaps report exactly the maximal runs of bits that differ "
+            "between the on-disk bitmap and what passes 1-4 found, exactly the groups / superblock whose free and directory counts differ from the bitmap, so silence implies "
+            "bitmap and counts equal the found usage, with -n nothing modified and the fs un-marked valid (p5blocks incl. the memcmp fast path and -E discard never touching a used "
+            "block, p5inodes incl. INODE_UNINIT groups); pass 4 e2fsck_pass4 raises PR_4_UNATTACHED_INODE / ZERO_LEN / BAD_REF_COUNT exactly for in-use inodes without "
+            "references / with a stored link count different from the counted references (p4links); pass 3 check_directory over a 5-6 entry directory table reports exactly the "
+            "parentless ends of parent chains and every '..' that differs from the parent, and its walk terminates for every parent function (p3dirs) -- but it accepts a cycle of "
+            "parents silently (see below); pass 1 process_block / mark_block_used enter exactly the in-range blocks of a file into block_found_map, every block claimed twice "
+            "into block_dup_map, and raise PR_1_ILLEGAL_BLOCK_NUM for every out-of-range block (p1blocks). Directory cycles: GENUINE FINDING, e2fsck -fn exits 0 on an image with directories unreachable from the root (p3dirs LOOPCHECK, demo_p3_dir_cycle.sh). "
+            "Completeness of a whole e2fsck -fn run (pass 1 / 2 table construction) is outside.",
     "note": "Trusted: CBMC's C semantics, the harness's restatement of the on-disk format, fix_problem answering no (protocol: C01). "
             "parse_int_node is cut in htreeleaf / htreerange_leaf and decided separately in htreenode; hash and checksum primitives are stubs "
-            "with symbolic results (decided in C15 / C14).",
+            "with symbolic results (decided in C15 / C14). p5*/p4links/p3dirs: bitmaps, icounts and the dir_info table are small array models behind the real API names; "
+            "e2fsck_reconnect_file / fix_dotdot (pass 3) cut to recording stubs that update the table as the real ones do; e2fsck_process_bad_inode, e2fsck_clear_inode "
+            "stubbed in p4links.",
 }
